@@ -44,7 +44,11 @@ type BusyLog = Arc<Mutex<Vec<(u128, bool, u128)>>>;
 struct Tx {
     ticks: Vec<(u64, Vec<(u16, usize)>)>,
     busy: BusyLog,
+    /// duplex variant: what comes back over the same gate
+    back: Log,
 }
+/// kind of data messages (ticks use their index, always below)
+const DATA: u16 = 500;
 impl Module for Tx {
     fn at_sim_start(&mut self, _: usize) {
         for (k, (t, _)) in self.ticks.iter().enumerate() {
@@ -52,21 +56,38 @@ impl Module for Tx {
         }
     }
     fn handle_message(&mut self, m: Message) {
+        if m.header().kind == DATA {
+            self.back.lock().unwrap().push((m.header().id, SimTime::now().as_nanos()));
+            return;
+        }
         let k = m.header().kind as usize;
         if let Some(ch) = current().gate("out", 0).and_then(|g| g.channel()) {
             self.busy.lock().unwrap().push((SimTime::now().as_nanos(), ch.is_busy(), ch.transmission_finish_time().as_nanos()));
         }
         for &(id, len) in &self.ticks[k].1 {
-            send(Message::default().id(id).with_content(Tok::new(len)), "out");
+            send(Message::default().kind(DATA).id(id).with_content(Tok::new(len)), "out");
         }
     }
 }
 struct Rx {
     log: Log,
+    /// duplex variant: the receiver offers the same traffic in the opposite direction
+    ticks: Vec<(u64, Vec<(u16, usize)>)>,
 }
 impl Module for Rx {
+    fn at_sim_start(&mut self, _: usize) {
+        for (k, (t, _)) in self.ticks.iter().enumerate() {
+            schedule_at(Message::default().kind(k as u16), SimTime::from_duration(Duration::from_nanos(*t)));
+        }
+    }
     fn handle_message(&mut self, m: Message) {
-        self.log.lock().unwrap().push((m.header().id, SimTime::now().as_nanos()));
+        if m.header().kind == DATA {
+            self.log.lock().unwrap().push((m.header().id, SimTime::now().as_nanos()));
+            return;
+        }
+        for &(id, len) in &self.ticks[m.header().kind as usize].1 {
+            send(Message::default().kind(DATA).id(id).with_content(Tok::new(len)), "in");
+        }
     }
 }
 /// middle module of the 2-hop variant: forwards everything
@@ -186,12 +207,14 @@ struct Case {
     /// (offer time ns, id, body length)
     offers: Vec<(u128, u16, usize)>,
     two_hops: bool,
+    /// both ends offer the same traffic at the same instants over the one connection
+    duplex: bool,
 }
 
 fn case_json(c: &Case) -> Value {
     json!({"bitrate": c.bitrate, "latency_ns": c.lat, "jitter_ns": c.jit,
            "policy": match c.pol { Pol::Drop => json!("drop"), Pol::Q(None) => json!("queue_unbounded"), Pol::Q(Some(l)) => json!({"queue_bytes": l}) },
-           "offers": c.offers.iter().map(|o| json!([o.0 as u64, o.1, o.2])).collect::<Vec<_>>(), "two_hops": c.two_hops})
+           "offers": c.offers.iter().map(|o| json!([o.0 as u64, o.1, o.2])).collect::<Vec<_>>(), "two_hops": c.two_hops, "duplex": c.duplex})
 }
 fn case_from(v: &Value) -> Case {
     let p = &v["policy"];
@@ -208,6 +231,7 @@ fn case_from(v: &Value) -> Case {
         },
         offers: v["offers"].as_array().unwrap().iter().map(|o| (u128::from(o[0].as_u64().unwrap()), o[1].as_u64().unwrap() as u16, o[2].as_u64().unwrap() as usize)).collect(),
         two_hops: v["two_hops"].as_bool().unwrap_or(false),
+        duplex: v["duplex"].as_bool().unwrap_or(false),
     }
 }
 
@@ -242,9 +266,11 @@ fn run_case(c: &Case, facts: &mut Facts) -> Result<u64, String> {
         LIVE.store(0, SeqCst);
         let log: Log = Default::default();
         let busy: BusyLog = Default::default();
+        let back: Log = Default::default();
         let mut sim = Sim::new(());
-        sim.node("tx", Tx { ticks, busy: busy.clone() });
-        sim.node("rx", Rx { log: log.clone() });
+        let rticks = if c.duplex { ticks.clone() } else { vec![] };
+        sim.node("tx", Tx { ticks, busy: busy.clone(), back: back.clone() });
+        sim.node("rx", Rx { log: log.clone(), ticks: rticks });
         let metrics = ChannelMetrics::new(
             c.bitrate as usize,
             Duration::from_nanos(c.lat),
@@ -269,9 +295,10 @@ fn run_case(c: &Case, facts: &mut Facts) -> Result<u64, String> {
         drop(r);
         let got = log.lock().unwrap().clone();
         let b = busy.lock().unwrap().clone();
-        (ok_run, live_after_run, got, b)
+        let bk = back.lock().unwrap().clone();
+        (ok_run, live_after_run, got, b, bk)
     });
-    let (ok_run, live_after_run, got, busy) = res.map_err(|m| format!("panicked: {m}"))?;
+    let (ok_run, live_after_run, got, busy, back) = res.map_err(|m| format!("panicked: {m}"))?;
     if !ok_run {
         return Err("run returned an error".into());
     }
@@ -299,6 +326,31 @@ fn run_case(c: &Case, facts: &mut Facts) -> Result<u64, String> {
             "deliveries (id, time) {got:?} match none of the outcomes the rules allow: {:?} (per message: base delivery time, None = dropped)",
             allowed.iter().map(|o| &o.deliver).collect::<Vec<_>>()
         ));
+    }
+    if c.duplex {
+        // the opposite direction is a channel of its own: the same offers have the same outcomes
+        let mut bt: Vec<Option<u128>> = vec![None; m];
+        for &(id, t) in &back {
+            if bt[id as usize].is_some() {
+                return Err(format!("opposite direction: message {id} was delivered twice: {back:?}"));
+            }
+            bt[id as usize] = Some(t);
+        }
+        let ok = allowed.iter().any(|exp| {
+            (0..m).all(|i| match (exp.deliver[i], bt[i]) {
+                (None, None) => true,
+                (Some(e), Some(g)) => g + tol >= e && g < e + jit.max(1) + tol,
+                _ => false,
+            })
+        });
+        if !ok {
+            return Err(format!(
+                "both ends offer the same traffic at the same instants: the opposite direction delivered (id, time) {back:?}, the rules allow {:?} in either direction (forward deliveries {got:?})",
+                allowed.iter().map(|o| &o.deliver).collect::<Vec<_>>()
+            ));
+        }
+    } else if !back.is_empty() {
+        return Err(format!("the sender received messages although nothing was sent to it: {back:?}"));
     }
     if c.jit == 0 {
         let ids: Vec<u16> = got.iter().map(|g| g.0).collect();
@@ -340,7 +392,7 @@ impl Property for C07 {
     fn rule(&self, tier: Tier) -> String {
         format!(
             "bitrate in {{0, 8 kbit/s, 1 Mbit/s, 2e12 (sub-ns transmission)}} x latency {{0, 1 ms}} x jitter {{0, 1 ms}} x policy {{Drop, Queue(None), Queue(0), Queue(163), Queue(164), Queue(329), Queue(1228)}} \
-             x every traffic pattern of 1..={} messages with body sizes {{0, 100, 1000}} B and gaps {{0 = burst in one handler, tx/2, tx, tx+1ns, 3tx}} (tx = transmission time of a 164 B message), plus a 2-hop variant through a forwarding module; \
+             x every traffic pattern of 1..={} messages with body sizes {{0, 100, 1000}} B and gaps {{0 = burst in one handler, tx/2, tx, tx+1ns, 3tx}} (tx = transmission time of a 164 B message), plus a 2-hop variant through a forwarding module, plus a duplex variant in which the receiver offers the same traffic at the same instants in the opposite direction over the one connection (each direction must behave as a channel of its own); \
              oracle: reference channel (each message delivered exactly once at start + size*8/bitrate + latency + [0, jitter) or dropped by the stated rule; FIFO start at the idle instant; order preserved with zero jitter; no body alive after the run; is_busy / transmission_finish_time sampled at every sender tick); \
              same-instant ties (offer exactly when the channel goes idle; busy sample exactly at an interval boundary) accept both resolutions; non-trivial = pattern in which a message meets a busy channel",
             tier.pick(4, 5)
@@ -349,11 +401,11 @@ impl Property for C07 {
     fn assumptions(&self) -> Vec<String> {
         vec![
             "1 ns tolerance on delivery times for the float-to-Duration rounding of size*8/bitrate".into(),
-            "probes and channels on both directions at once are outside the alphabet; the reverse direction uses an independent channel instance".into(),
+            "channel probes are outside the alphabet".into(),
         ]
     }
     fn required_features(&self, _tier: Tier) -> Vec<&'static str> {
-        vec!["message_dropped_by_rule", "message_queued_then_sent_at_idle_instant", "same_instant_tie", "sub_ns_transmission", "two_hop_variant", "byte_limit_edge"]
+        vec!["message_dropped_by_rule", "message_queued_then_sent_at_idle_instant", "same_instant_tie", "sub_ns_transmission", "two_hop_variant", "byte_limit_edge", "both_directions_at_once"]
     }
     fn explore(&self, ctx: &mut Ctx) {
         let maxm = ctx.tier.pick(4, 5);
@@ -365,8 +417,11 @@ impl Property for C07 {
             for lat in [0u64, 1_000_000] {
                 for jit in [0u64, 1_000_000] {
                     for pol in policies() {
-                        for two_hops in [false, true] {
+                        for (two_hops, duplex) in [(false, false), (true, false), (false, true)] {
                             if two_hops && (jit != 0 || lat != 0) {
+                                continue;
+                            }
+                            if duplex && (jit != 0 || br == 0) {
                                 continue;
                             }
                             for m in 1..=maxm {
@@ -388,7 +443,10 @@ impl Property for C07 {
                                         }
                                         offers.push((t, i as u16, s));
                                     }
-                                    let c = Case { bitrate: br, lat, jit, pol, offers, two_hops };
+                                    let c = Case { bitrate: br, lat, jit, pol, offers, two_hops, duplex };
+                                    if duplex {
+                                        ctx.hit("both_directions_at_once");
+                                    }
                                     let mut f = Facts::default();
                                     ctx.begin(|| case_json(&c));
                                     let r = run_case(&c, &mut f);
